@@ -69,7 +69,7 @@ def run(ctx):
         rule=("inputs = random/compressible/run-length payloads (0..600 B quick, ..4000 B thorough) per algorithm; each compressed form is "
               "bit-flipped, overwritten, truncated, extended, tail-flipped or left intact; an op is non-trivial when it is a dec or rt line; "
               "distinct = distinct op lines; wrapper reply compared with the Lean wrapper model fed with the library's own verdict"),
-        samples=[{"op": c.ops[i][:160], "impl": c.impl[i][:80]} for i in range(1, min(len(c.ops), 6))],
+        samples=[{"op": c.ops[i][:160], "impl": c.impl[i][:80]} for i in range(1, min(len(c.ops), len(c.impl), 6))] or [{"op": "none"}],
         evaluations=len(c.ops), distinct_nontrivial=max(distinct - 1, 0),
         extra_cov={"correspondence": {"domain": "C24", "op_lines": len(c.ops), "mismatching_lines": len(c.mismatch),
                                       "by_algorithm_lib_wrapper": by_alg,
